@@ -138,7 +138,11 @@ def model_runs(prop, tier):
 def execute(scripts, work, name):
     sp = work / f"{name}.scripts.ndjson"
     with open(sp, "w") as f:
-        for s in scripts:
+        for i, s in enumerate(scripts):
+            # every other configuration starts from the compiled container (apply_bytecode_bytes), the way a deployed
+            # runtime does; the choice is part of the script, so that a stored script replays on the same path
+            if "deployed" not in s["cfg"]:
+                s["cfg"]["deployed"] = i % 2 == 1
             f.write(json.dumps(s) + "\n")
     tr = work / f"{name}.trace.ndjson"
     tpv(["cycle-run", "--scripts", sp, "--out", tr], timeout=1800)
